@@ -6,6 +6,7 @@
 import IcingaProofs.C20.Lemmas
 import IcingaProofs.C20.SpecLemmas
 import IcingaProofs.C20.JsonLemmas
+import IcingaProofs.C20.MessageLemmas
 
 namespace Icinga.C20
 
@@ -360,5 +361,91 @@ theorem json_roundtrip_int (v : JValue Int) : jsonDecode intCodec (jsonEncode in
 example : jsonDecode intCodec (jsonEncode intCodec sampleValue) = some sampleValue := json_roundtrip_int sampleValue
 example : (jsonDecode intCodec (asciiBytes "[1,]")).isNone = true := by decide +kernel
 example : jsonDecodeString (asciiBytes "\"\\ud800\"") = none := by decide +kernel
+
+/-! ## JSON-RPC messages (JsonRpc::DecodeMessage, the receive loop of JsonRpcConnection) -/
+
+/-- **decode_message_only_objects.**  `DecodeMessage` yields a dictionary exactly when the payload decodes
+    to a JSON object (then: that object); every other payload — malformed text, `null`, booleans, numbers,
+    strings, arrays — ends in an error, never in a value handed to the caller. -/
+theorem decode_message_only_objects {N : Type} (c : NumCodec N) (bs : List UInt8) :
+    (∀ kvs, decodeMessage c bs = .ok kvs ↔ jsonDecode c bs = some (.obj kvs)) ∧
+    (jsonDecode c bs = none → decodeMessage c bs = .error .malformed) ∧
+    (∀ v, jsonDecode c bs = some v → (∀ kvs, v ≠ .obj kvs) → decodeMessage c bs = .error .notObject) := by
+  refine ⟨?_, ?_, ?_⟩
+  · intro kvs
+    unfold decodeMessage
+    cases h : jsonDecode c bs with
+    | none => simp
+    | some v => cases v <;> simp
+  · intro h; simp [decodeMessage, h]
+  · intro v h hv
+    unfold decodeMessage
+    rw [h]
+    cases v with
+    | obj kvs => exact absurd rfl (hv kvs)
+    | _ => rfl
+
+/-- **decode_message_roundtrip.**  An encoded dictionary is accepted and comes back unchanged; an encoded value
+    of any other kind is rejected (lawful number codec). -/
+theorem decode_message_roundtrip {N : Type} (c : NumCodec N) (hc : c.Lawful) (v : JValue N) :
+    decodeMessage c (jsonEncode c v) =
+      match v with
+      | .obj kvs => .ok kvs
+      | _ => .error .notObject := by
+  unfold decodeMessage
+  rw [json_roundtrip c hc v]
+  cases v <;> rfl
+
+/-- **message_model_meets_spec.**  Whatever `DecodeMessage`'s model does on any payload satisfies the executable
+    specification `messageSpec` the driver evaluates on the implementation's observations: never a null or
+    non-dictionary result, and a dictionary only for a text that starts with '{'. -/
+theorem message_model_meets_spec {N : Type} (c : NumCodec N) (bs : List UInt8) :
+    messageSpec bs (obsOfMsg (decodeMessage c bs)) = none := by
+  cases h : decodeMessage c bs with
+  | error e => rfl
+  | ok kvs =>
+    have hd := ((decode_message_only_objects c bs).1 kvs).mp h
+    unfold jsonDecode at hd
+    cases hv : decodeValueF c (bs.length + 1) bs with
+    | none => simp [hv] at hd
+    | some vr =>
+      obtain ⟨v, r⟩ := vr
+      rw [hv] at hd
+      cases r with
+      | cons x xs => simp at hd
+      | nil =>
+        simp only [Option.some.injEq] at hd
+        subst hd
+        obtain ⟨t, ht⟩ := decodeValueF_obj_head c _ bs kvs [] hv
+        simp [obsOfMsg, messageSpec, ht, firstNonWs_cons_brace]
+
+/-- **recv_message_only_objects.**  One iteration of the receive loop hands a message to the handlers only if the
+    stream starts with a canonical frame within the limit whose payload decodes to a JSON object. -/
+theorem recv_message_only_objects {N : Type} (c : NumCodec N) (max : Option Nat) (bs : Bytes)
+    (kvs : List (List Char × JValue N)) (rest : Bytes) (h : recvMessage c max bs = .message kvs rest) :
+    ∃ p, bs = nsEncode p ++ rest ∧ tlsLimitExceeded max p.length = false ∧ jsonDecode c p = some (.obj kvs) := by
+  unfold recvMessage at h
+  cases ho : (nsReadTls max bs).out with
+  | eof => simp [ho] at h
+  | error e r => simp [ho] at h
+  | ok p r =>
+    simp only [ho] at h
+    cases hm : decodeMessage c p with
+    | error e => simp [hm] at h
+    | ok k =>
+      simp only [hm, RecvOutcome.message.injEq] at h
+      obtain ⟨hk, hr⟩ := h
+      subst hk; subst hr
+      have hc := netstring_accepts_only_canonical max bs p r (nsReadTls max bs).alloc (by rw [← ho])
+      exact ⟨p, hc.1, hc.2.2.1, ((decode_message_only_objects c p).1 k).mp hm⟩
+
+-- "null", "42", "[]" are rejected; "{}" is accepted; the specification rejects a null result
+example : obsOfMsg (decodeMessage intCodec (asciiBytes "null")) = .rejected := by decide +kernel
+example : obsOfMsg (decodeMessage intCodec (asciiBytes "42")) = .rejected := by decide +kernel
+example : obsOfMsg (decodeMessage intCodec (asciiBytes "[]")) = .rejected := by decide +kernel
+example : obsOfMsg (decodeMessage intCodec (asciiBytes "{")) = .rejected := by decide +kernel
+example : obsOfMsg (decodeMessage intCodec (asciiBytes "{}")) = .dict := by decide +kernel
+example : messageSpec (asciiBytes "null") .null = some .messageOnlyObjects := by decide
+example : messageSpec (asciiBytes "[]") .dict = some .messageNotObjectText := by decide
 
 end Icinga.C20
